@@ -22,6 +22,13 @@ Rules (checked per annotated instruction, all local):
     `locals ≥ captures` (it truncates the locals to `locals_base + captures_count` and re-enters
     at pc 0, whose annotation promises the captures),
   * entry: the state `{1, captures}` flows into pc 0.
+  * **nil guard** (path-sensitive part, `Guard`): a branch condition that is a multi-step sequence
+    short-circuits on nil to the END of the condition with fewer locals than the full path, and
+    the consequence (which loads the condition's bindings) is reached only when the value is
+    non-nil. The annotation therefore may carry `top g` = "if the top value is non-nil there are
+    at least `g` locals"; `Duplicate` / `Not` / `JumpIf` carry the fact along (`dup`, `neg`), the
+    taken side of the `JumpIf` knows the value is nil (`nilTop`), the other side gets the `g`
+    locals. Every other instruction forgets the guard.
 `inferAnn` produces annotations by a worklist dataflow; it is **untrusted** — only its output is
 checked. Soundness (`Theorems/C07.lean`): in every state M-VM reaches from an entry state of a
 program all of whose functions pass, the shape of the process is the annotated one, and no step
@@ -29,10 +36,40 @@ fails structurally.
 -/
 namespace QM.VM
 
+/-- What is known about the top of the operand stack (the path-sensitive part of the abstract
+state). `g` counts frame-relative locals. -/
+inductive Guard where
+  | none
+  /-- if the top value is non-nil, there are at least `g` locals -/
+  | top (g : Nat)
+  /-- the two top cells hold the same value; if it is non-nil, there are at least `g` locals -/
+  | dup (g : Nat)
+  /-- the top cell is `Not` of the cell below; if the cell below is non-nil, at least `g` locals -/
+  | neg (g : Nat)
+  /-- the top value is nil -/
+  | nilTop
+  deriving DecidableEq, Repr, Inhabited
+
 structure Ann where
   height : Nat
   locals : Nat
+  guard : Guard := .none
   deriving DecidableEq, Repr, Inhabited
+
+/-- Wire / diagnostic form of a guard: `""`, `t<g>`, `d<g>`, `n<g>`, `z`. -/
+def Guard.render : Guard → String
+  | .none => ""
+  | .top g => s!"t{g}"
+  | .dup g => s!"d{g}"
+  | .neg g => s!"n{g}"
+  | .nilTop => "z"
+
+/-- Locals there are if the top value turns out non-nil. -/
+def Ann.eff (a : Ann) : Nat :=
+  match a.guard with
+  | .top g => max g a.locals
+  | .dup g => max g a.locals
+  | _ => a.locals
 
 abbrev Anns := Array (Option Ann)
 
@@ -43,31 +80,36 @@ def staticTarget (pc : Nat) (off : Int) : Int := (pc : Int) + off + 1
 captures: either a reason for rejection, or the list of `(successor pc, state flowing into it)`. -/
 def transfer (P : Prog) (n caps pc : Nat) (a : Ann) : Instr → Except String (List (Nat × Ann))
   | .constant i =>
-    if i < P.constants.size then .ok [(pc + 1, ⟨a.height + 1, a.locals⟩)] else .error "constant-index"
+    if i < P.constants.size then .ok [(pc + 1, ⟨a.height + 1, a.locals, .none⟩)] else .error "constant-index"
   | .pop =>
-    if 1 ≤ a.height then .ok [(pc + 1, ⟨a.height - 1, a.locals⟩)] else .error "stack-underflow"
+    if 1 ≤ a.height then .ok [(pc + 1, ⟨a.height - 1, a.locals, .none⟩)] else .error "stack-underflow"
   | .duplicate =>
-    if 1 ≤ a.height then .ok [(pc + 1, ⟨a.height + 1, a.locals⟩)] else .error "stack-underflow"
+    if 1 ≤ a.height then
+      .ok [(pc + 1, ⟨a.height + 1, a.locals,
+        match a.guard with
+        | .top g => .dup (max g a.locals)
+        | _ => .dup a.locals⟩)]
+    else .error "stack-underflow"
   | .pick k =>
-    if k < a.height then .ok [(pc + 1, ⟨a.height + 1, a.locals⟩)] else .error "stack-underflow"
+    if k < a.height then .ok [(pc + 1, ⟨a.height + 1, a.locals, .none⟩)] else .error "stack-underflow"
   | .rotate k =>
-    if 1 ≤ k ∧ k ≤ a.height then .ok [(pc + 1, a)] else .error "rotate-operand"
+    if 1 ≤ k ∧ k ≤ a.height then .ok [(pc + 1, ⟨a.height, a.locals, .none⟩)] else .error "rotate-operand"
   | .reset k =>
-    if k ≤ a.locals then .ok [(pc + 1, ⟨a.height, k⟩)] else .error "reset-beyond-locals"
+    if k ≤ a.locals then .ok [(pc + 1, ⟨a.height, k, .none⟩)] else .error "reset-beyond-locals"
   | .load i =>
-    if i < a.locals then .ok [(pc + 1, ⟨a.height + 1, a.locals⟩)] else .error "load-undefined-local"
+    if i < a.locals then .ok [(pc + 1, ⟨a.height + 1, a.locals, .none⟩)] else .error "load-undefined-local"
   | .store =>
-    if 1 ≤ a.height then .ok [(pc + 1, ⟨a.height - 1, a.locals + 1⟩)] else .error "stack-underflow"
+    if 1 ≤ a.height then .ok [(pc + 1, ⟨a.height - 1, a.locals + 1, .none⟩)] else .error "stack-underflow"
   | .tuple id =>
     match P.tuples[id]? with
     | none => .error "tuple-index"
     | some arity =>
-      if arity ≤ a.height then .ok [(pc + 1, ⟨a.height - arity + 1, a.locals⟩)] else .error "stack-underflow"
+      if arity ≤ a.height then .ok [(pc + 1, ⟨a.height - arity + 1, a.locals, .none⟩)] else .error "stack-underflow"
   | .get _ =>
-    if 1 ≤ a.height then .ok [(pc + 1, a)] else .error "stack-underflow"
+    if 1 ≤ a.height then .ok [(pc + 1, ⟨a.height, a.locals, .none⟩)] else .error "stack-underflow"
   | .isType id =>
     if id < P.types then
-      if 1 ≤ a.height then .ok [(pc + 1, a)] else .error "stack-underflow"
+      if 1 ≤ a.height then .ok [(pc + 1, ⟨a.height, a.locals, .none⟩)] else .error "stack-underflow"
     else .error "type-index"
   | .jump off =>
     let t := staticTarget pc off
@@ -76,11 +118,15 @@ def transfer (P : Prog) (n caps pc : Nat) (a : Ann) : Instr → Except String (L
     let t := staticTarget pc off
     if 1 ≤ a.height then
       if 0 ≤ t ∧ t ≤ n ∧ off ≠ isizeMax then
-        .ok [(t.toNat, ⟨a.height - 1, a.locals⟩), (pc + 1, ⟨a.height - 1, a.locals⟩)]
+        match a.guard with
+        | .neg g =>
+          -- taken: the tested value (now on top) is nil; not taken: it is non-nil
+          .ok [(t.toNat, ⟨a.height - 1, a.locals, .nilTop⟩), (pc + 1, ⟨a.height - 1, max g a.locals, .none⟩)]
+        | _ => .ok [(t.toNat, ⟨a.height - 1, a.locals, .none⟩), (pc + 1, ⟨a.height - 1, a.locals, .none⟩)]
       else .error "jump-out-of-range"
     else .error "stack-underflow"
   | .call =>
-    if 2 ≤ a.height then .ok [(pc + 1, ⟨a.height - 1, a.locals⟩)] else .error "stack-underflow"
+    if 2 ≤ a.height then .ok [(pc + 1, ⟨a.height - 1, a.locals, .none⟩)] else .error "stack-underflow"
   | .tailCall true =>
     if a.height = 1 then
       if caps ≤ a.locals then .ok [] else .error "tailcall-captures-dropped"
@@ -91,31 +137,52 @@ def transfer (P : Prog) (n caps pc : Nat) (a : Ann) : Instr → Except String (L
     match P.functions[i]? with
     | none => .error "function-index"
     | some fn =>
-      if fn.captures ≤ a.height then .ok [(pc + 1, ⟨a.height - fn.captures + 1, a.locals⟩)]
+      if fn.captures ≤ a.height then .ok [(pc + 1, ⟨a.height - fn.captures + 1, a.locals, .none⟩)]
       else .error "stack-underflow"
   | .builtin i =>
-    if i < P.builtins then .ok [(pc + 1, ⟨a.height + 1, a.locals⟩)] else .error "builtin-index"
+    if i < P.builtins then .ok [(pc + 1, ⟨a.height + 1, a.locals, .none⟩)] else .error "builtin-index"
   | .equal k =>
-    if 1 ≤ k ∧ k ≤ a.height then .ok [(pc + 1, ⟨a.height - k + 1, a.locals⟩)] else .error "equal-operand"
+    if 1 ≤ k ∧ k ≤ a.height then .ok [(pc + 1, ⟨a.height - k + 1, a.locals, .none⟩)] else .error "equal-operand"
   | .not =>
-    if 1 ≤ a.height then .ok [(pc + 1, a)] else .error "stack-underflow"
+    if 1 ≤ a.height then
+      .ok [(pc + 1, ⟨a.height, a.locals,
+        match a.guard with
+        | .dup g => .neg g
+        | _ => .none⟩)]
+    else .error "stack-underflow"
   | .spawn =>
-    if 2 ≤ a.height then .ok [(pc + 1, ⟨a.height - 1, a.locals⟩)] else .error "stack-underflow"
+    if 2 ≤ a.height then .ok [(pc + 1, ⟨a.height - 1, a.locals, .none⟩)] else .error "stack-underflow"
   | .send =>
-    if 2 ≤ a.height then .ok [(pc + 1, ⟨a.height - 1, a.locals⟩)] else .error "stack-underflow"
-  | .self_ => .ok [(pc + 1, ⟨a.height + 1, a.locals⟩)]
+    if 2 ≤ a.height then .ok [(pc + 1, ⟨a.height - 1, a.locals, .none⟩)] else .error "stack-underflow"
+  | .self_ => .ok [(pc + 1, ⟨a.height + 1, a.locals, .none⟩)]
   | .select =>
-    if 1 ≤ a.height then .ok [(pc + 1, a)] else .error "stack-underflow"
+    if 1 ≤ a.height then .ok [(pc + 1, ⟨a.height, a.locals, .none⟩)] else .error "stack-underflow"
   | .process _ fidx =>
-    if fidx < P.functions.size then .ok [(pc + 1, ⟨a.height + 1, a.locals⟩)] else .error "function-index"
+    if fidx < P.functions.size then .ok [(pc + 1, ⟨a.height + 1, a.locals, .none⟩)] else .error "function-index"
+
+/-- Does what `out` knows about the top of the stack imply what `b` claims? -/
+def guardFlows (out b : Ann) : Bool :=
+  match b.guard with
+  | .none => true
+  | .top g => out.guard == .nilTop || decide (g ≤ out.eff)
+  | .dup g =>
+    match out.guard with
+    | .dup g' => decide (g ≤ max g' out.locals)
+    | _ => false
+  | .neg g =>
+    match out.guard with
+    | .neg g' => decide (g ≤ max g' out.locals)
+    | _ => false
+  | .nilTop => out.guard == .nilTop
 
 /-- May the abstract state `out` flow into `pc'`? At the end of the function (`pc' = n`) the
-height must be 1; inside, the annotation must have the same height and no more locals. -/
+height must be 1; inside, the annotation must have the same height, no more locals, and a guard
+that follows from `out`'s. -/
 def flowsTo (n : Nat) (anns : Anns) (pc' : Nat) (out : Ann) : Bool :=
   if pc' = n then out.height == 1
   else
     match anns[pc']? with
-    | some (some b) => b.height == out.height && decide (b.locals ≤ out.locals)
+    | some (some b) => b.height == out.height && decide (b.locals ≤ out.locals) && guardFlows out b
     | _ => false
 
 /-- Local check of the annotated instruction at `pc`. -/
@@ -133,7 +200,7 @@ def maxCode : Nat := 2 ^ 62
 def checkFn (P : Prog) (fn : Function) (anns : Anns) : Bool :=
   anns.size == fn.instructions.size
     && decide (fn.instructions.size < maxCode)
-    && flowsTo fn.instructions.size anns 0 ⟨1, fn.captures⟩
+    && flowsTo fn.instructions.size anns 0 ⟨1, fn.captures, .none⟩
     && (List.range fn.instructions.size).all (fun pc => checkPc P fn.instructions fn.captures anns pc)
 
 /-- **The checker.** -/
@@ -161,7 +228,7 @@ def explainReject (P : Prog) (fn : Function) (anns : Anns) : Option (Nat × Stri
   let n := fn.instructions.size
   if anns.size ≠ n then some (0, "annotation-array-size")
   else if ¬ n < maxCode then some (0, "function-too-large")
-  else if !flowsTo n anns 0 ⟨1, fn.captures⟩ then some (0, "entry-state")
+  else if !flowsTo n anns 0 ⟨1, fn.captures, .none⟩ then some (0, "entry-state")
   else
     (List.range n).findSome? (fun pc =>
       match anns[pc]?, fn.instructions[pc]? with
@@ -172,9 +239,9 @@ def explainReject (P : Prog) (fn : Function) (anns : Anns) : Option (Nat × Stri
           match succs.find? (fun s => !flowsTo n anns s.1 s.2) with
           | some s =>
             let tgt := match anns[s.1]? with
-              | some (some b) => s!"has h={b.height} l={b.locals}"
+              | some (some b) => s!"has h={b.height} l={b.locals} g={b.guard.render}"
               | _ => if s.1 = n then "is the function end (needs h=1)" else "is unannotated/out of range"
-            some (pc, s!"flow-mismatch to pc {s.1}: incoming h={s.2.height} l={s.2.locals}, target {tgt}")
+            some (pc, s!"flow-mismatch to pc {s.1}: incoming h={s.2.height} l={s.2.locals} g={s.2.guard.render}, target {tgt}")
           | none => none
       | _, _ => none)
 
@@ -186,12 +253,25 @@ inductive Merge where
   | updated (anns : Anns)
   | conflict (old : Ann) (incoming : Ann)
 
+/-- Join of the guards of two states flowing into the same pc (`l` = the joined locals). -/
+def joinGuard (x y : Ann) (l : Nat) : Guard :=
+  let norm (g : Nat) : Guard := if g ≤ l then .none else .top g
+  match x.guard, y.guard with
+  | .nilTop, .nilTop => .nilTop
+  | .nilTop, _ => norm y.eff
+  | _, .nilTop => norm x.eff
+  | .dup g1, .dup g2 => .dup (min (max g1 x.locals) (max g2 y.locals))
+  | .neg g1, .neg g2 => .neg (min (max g1 x.locals) (max g2 y.locals))
+  | _, _ => norm (min x.eff y.eff)
+
 def mergeInto (anns : Anns) (pc' : Nat) (out : Ann) : Merge :=
   match anns[pc']? with
   | some (some b) =>
     if b.height ≠ out.height then .conflict b out
-    else if out.locals < b.locals then .updated (anns.set! pc' (some ⟨b.height, out.locals⟩))
-    else .unchanged
+    else
+      let l := min b.locals out.locals
+      let nb : Ann := ⟨b.height, l, joinGuard b out l⟩
+      if nb = b then .unchanged else .updated (anns.set! pc' (some nb))
   | some none => .updated (anns.set! pc' (some out))
   | none => .unchanged
 
@@ -236,7 +316,7 @@ def inferFn (P : Prog) (fn : Function) : InferResult :=
   let n := fn.instructions.size
   if n = 0 then { anns := #[] }
   else
-    let anns : Anns := (Array.replicate n none).set! 0 (some ⟨1, fn.captures⟩)
+    let anns : Anns := (Array.replicate n none).set! 0 (some ⟨1, fn.captures, .none⟩)
     inferLoop P fn (2 * n * (n + 2) + 1024) [0] { anns := anns }
 
 /-- **Inference** for function `f` of `P` (empty array if `f` is out of range). -/
